@@ -1,3 +1,202 @@
-//! C04 — not built yet.
-use crate::run::Run;
-pub fn run(_run: &Run) { eprintln!("C04: check not built yet"); std::process::exit(2); }
+//! C04 — serialised objects parse back to the same value (four placements), serialising never panics.
+use crate::casecheck::check_case;
+use crate::panicmon::guard;
+use crate::par::par_for;
+use crate::rng::{fnv, Rng};
+use crate::run::{show, Run};
+use crate::tape::Src;
+use crate::val::{brief_v, gen_int, gen_name, matches, to_primitive, V};
+use pdf::build::{CatalogBuilder, PdfBuilder};
+use pdf::content::{parse_ops, serialize_ops, Color, Op};
+use pdf::file::FileOptions;
+use pdf::object::{NoResolve, NoUpdate, PlainRef, Resolve, Stream, Updater};
+use pdf::parser::{parse, parse_indirect_object, Lexer, ParseFlags};
+use pdf::primitive::Primitive;
+use serde_json::{json, Value};
+
+const BOUNDARY_REALS: [f32; 30] = [0.0, -0.0, 1.0, -1.0, 0.5, 0.1, 1e-7, -1e-7, 1.1754944e-38, 1e-38, 1e-45, -1e-45, 16777216.0, 16777217.0, 16777215.0,
+    2147483520.0, 2147483648.0, -2147483648.0, 4294967296.0, 3e9, -3e9, 1e10, 1e20, 3.4028235e38, -3.4028235e38, 123456.79, 0.000123, 65535.5, 255.99, 1e15];
+
+fn real_v(x: f32) -> V { V::Real(format!("{}", x)) }
+
+fn gen_leaf(s: &mut Src) -> V {
+    match s.draw(8) {
+        0 => V::Int(gen_int(s)),
+        1 => { let k = s.alt(2, &["real_small", "real_boundary", "real_random_bits"]);
+               match k { 0 => real_v((s.draw(20001) as f32 - 10000.0) / 16.0), 1 => { let x = *s.pick(&BOUNDARY_REALS); if x.abs() >= 2147483648.0 { s.label("real>=2^31"); } real_v(x) }
+                   _ => { let x = f32::from_bits(s.u32full()); if x.is_finite() { if x.abs() >= 2147483648.0 { s.label("real>=2^31"); } real_v(x) } else { real_v(1.5) } } } }
+        2 => { let n = s.draw(20) as usize; let kind = s.alt(3, &["str_ascii", "str_anybytes"]); V::Str((0..n).map(|_| if kind == 0 { 0x20 + s.draw(0x5f) as u8 } else { s.byte() }).collect()) }
+        3 => {
+            let wide = s.alt(2, &["name_plain", "name_wide"]) == 1;
+            let n = gen_name(s, wide);
+            if n.bytes().any(|b| b >= 0x80) { s.label("name_non_ascii"); }
+            if n.bytes().any(|b| b <= 0x20 || b == 0x7f || b"()<>[]{}/%#".contains(&b)) { s.label("name_needs_escape"); }
+            V::Name(n)
+        }
+        4 => V::Bool(s.draw(2) == 1),
+        5 => V::Null,
+        6 => V::Ref(s.draw(1_000_000) as u64, if s.draw(4) == 0 { s.draw(65536) as u64 } else { 0 }),
+        _ => V::Int(s.draw(1000) as i32),
+    }
+}
+fn gen_tree(s: &mut Src, depth: u32, max_depth: u32) -> V {
+    if depth >= max_depth || s.draw(3) == 0 { return gen_leaf(s); }
+    if s.draw(2) == 0 {
+        let n = s.draw(4) as usize;
+        V::Arr((0..n).map(|_| gen_tree(s, depth + 1, max_depth)).collect())
+    } else {
+        let n = s.draw(4) as usize;
+        let mut items: Vec<(String, V)> = Vec::new();
+        for _ in 0..n {
+            let wide = s.alt(4, &["key_plain", "key_wide"]) == 1;
+            let k = gen_name(s, wide);
+            if k.bytes().any(|b| b >= 0x80 || b <= 0x20 || b == 0x7f || b"()<>[]{}/%#".contains(&b)) { s.label("key_needs_escape"); }
+            if items.iter().any(|(kk, _)| *kk == k) { continue; }
+            items.push((k, gen_tree(s, depth + 1, max_depth)));
+        }
+        V::Dict(items)
+    }
+}
+
+#[derive(Debug)]
+struct Case { v: V, placement: u8, stream_data: Option<Vec<u8>> }
+const PLACEMENTS: [&str; 4] = ["indirect-object", "dict-value", "array-element", "content-operand"];
+
+fn gen_case(s: &mut Src, max_depth: u32) -> Case {
+    let placement = s.draw(4) as u8;
+    // a deep chain now and then, to reach the supported nesting depth (parser MAX_DEPTH is 20, framing uses up to 2)
+    let v = if s.alt(12, &["tree", "deep_chain"]) == 1 {
+        let d = 10 + s.draw(7);
+        let mut v = gen_leaf(s);
+        for i in 0..d { v = if i % 2 == 0 { V::Arr(vec![v]) } else { V::Dict(vec![("K".into(), v)]) }; }
+        v
+    } else { gen_tree(s, 0, max_depth) };
+    let stream_data = if placement == 0 && matches!(v, V::Dict(_)) && s.alt(3, &["no_stream", "as_stream"]) == 1 { Some(s.bytes(60)) } else { None };
+    Case { v, placement, stream_data }
+}
+
+struct BufResolve<'a> { buf: &'a [u8] }
+impl<'a> Resolve for BufResolve<'a> {
+    fn resolve_flags(&self, _: PlainRef, _: ParseFlags, _: usize) -> pdf::error::Result<Primitive> { Err(pdf::PdfError::Reference) }
+    fn get<T: pdf::object::Object + datasize::DataSize>(&self, _: pdf::object::Ref<T>) -> pdf::error::Result<pdf::object::RcRef<T>> { Err(pdf::PdfError::Reference) }
+    fn options(&self) -> &pdf::object::ParseOptions { NoResolve.options() }
+    fn stream_data(&self, _: PlainRef, range: std::ops::Range<usize>) -> pdf::error::Result<std::sync::Arc<[u8]>> { self.buf.get(range).map(|s| s.into()).ok_or(pdf::PdfError::EOF) }
+    fn get_data_or_decode(&self, id: PlainRef, range: std::ops::Range<usize>, _: &[pdf::enc::StreamFilter]) -> pdf::error::Result<std::sync::Arc<[u8]>> { self.stream_data(id, range) }
+}
+
+fn err1(e: &pdf::PdfError) -> String { let s = format!("{}: {}", crate::doc::root_kind(e), crate::doc::root_cause(e)); s.lines().next().unwrap_or("").chars().take(100).collect() }
+
+fn oracle(c: &Case) -> Option<(String, String)> {
+    let r = guard(|| -> Option<(String, String)> {
+        let p = to_primitive(&c.v);
+        match c.placement {
+            0 => {
+                // the real writer frames the object: create it in an empty storage and save
+                let mut b = PdfBuilder::new(FileOptions::uncached());
+                let prim = if let Some(data) = &c.stream_data {
+                    let Primitive::Dictionary(d) = p.clone() else { unreachable!() };
+                    let st = Stream::new(d, data.clone());
+                    match st.to_pdf_stream(&mut NoUpdate) { Ok(s) => Primitive::Stream(s), Err(e) => return Some(("serialize-error".into(), err1(&e))) }
+                } else { p.clone() };
+                let r = match b.storage.create(prim) { Ok(r) => r.get_ref().get_inner(), Err(e) => return Some(("serialize-error".into(), err1(&e))) };
+                let bytes = match b.build(CatalogBuilder::from_pages(vec![])) { Ok(b) => b, Err(e) => return Some(("serialize-error".into(), err1(&e))) };
+                let head = format!("\n{} {} obj\n", r.id, r.gen);
+                let Some(off) = bytes.windows(head.len()).position(|w| w == head.as_bytes()) else { return Some(("object-not-written".into(), format!("no `{} {} obj` in the output", r.id, r.gen))) };
+                let res = BufResolve { buf: &bytes };
+                let mut lx = Lexer::with_offset(&bytes[off + 1..], off + 1);
+                match parse_indirect_object(&mut lx, &res, None, ParseFlags::ANY) {
+                    Err(e) => Some(("reparse-error".into(), format!("{} ; text: {}", err1(&e), show(&bytes[off + 1..(off + 120).min(bytes.len())])))),
+                    Ok((id, q)) => {
+                        if id != r { return Some(("wrong-value".into(), "object id differs".into())); }
+                        match (&c.stream_data, q) {
+                            (Some(data), Primitive::Stream(st)) => {
+                                let mut info = st.info.clone();
+                                info.remove("Length");
+                                if let Err(m) = matches(&Primitive::Dictionary(info), &c.v, false) { return Some(("wrong-value".into(), format!("stream dict: {}", m))); }
+                                match st.raw_data(&res) { Ok(d) if &d[..] == &data[..] => None, Ok(_) => Some(("wrong-stream-data".into(), "stream bytes differ".into())), Err(e) => Some(("reparse-error".into(), err1(&e))) }
+                            }
+                            (Some(_), _) => Some(("wrong-value".into(), "stream came back as non-stream".into())),
+                            (None, q) => matches(&q, &c.v, false).err().map(|m| ("wrong-value".to_string(), m)),
+                        }
+                    }
+                }
+            }
+            1 | 2 => {
+                let (outer, expect) = if c.placement == 1 {
+                    let mut d = pdf::primitive::Dictionary::new();
+                    d.insert("A", Primitive::Integer(1)); d.insert("V", p.clone()); d.insert("Z", Primitive::Integer(2));
+                    (Primitive::Dictionary(d), V::Dict(vec![("A".into(), V::Int(1)), ("V".into(), c.v.clone()), ("Z".into(), V::Int(2))]))
+                } else {
+                    (Primitive::Array(vec![Primitive::Integer(1), p.clone(), Primitive::Integer(2)]), V::Arr(vec![V::Int(1), c.v.clone(), V::Int(2)]))
+                };
+                let mut out = Vec::new();
+                if let Err(e) = outer.serialize(&mut out) { return Some(("serialize-error".into(), err1(&e))); }
+                match parse(&out, &NoResolve, ParseFlags::ANY) {
+                    Err(e) => Some(("reparse-error".into(), format!("{} ; text: {}", err1(&e), show(&out[..out.len().min(120)])))),
+                    Ok(q) => matches(&q, &expect, false).err().map(|m| ("wrong-value".to_string(), format!("{} ; text: {}", m, show(&out[..out.len().min(120)])))),
+                }
+            }
+            _ => {
+                let ops = vec![Op::Save, Op::FillColor { color: Color::Other(vec![p.clone()]) }, Op::Restore];
+                let data = match serialize_ops(&ops) { Ok(d) => d, Err(e) => return Some(("serialize-error".into(), err1(&e))) };
+                match parse_ops(&data, &NoResolve) {
+                    Err(e) => Some(("reparse-error".into(), format!("{} ; text: {}", err1(&e), show(&data[..data.len().min(120)])))),
+                    Ok(back) => {
+                        if back.len() != 3 { return Some(("wrong-value".into(), format!("{} ops instead of 3 ; text: {}", back.len(), show(&data[..data.len().min(120)])))); }
+                        match &back[1] {
+                            Op::FillColor { color: Color::Other(args) } if args.len() == 1 => matches(&args[0], &c.v, false).err().map(|m| ("wrong-value".to_string(), format!("{} ; text: {}", m, show(&data[..data.len().min(120)])))),
+                            other => Some(("wrong-value".into(), format!("operand came back as {:?}", other).chars().take(160).collect())),
+                        }
+                    }
+                }
+            }
+        }
+    });
+    match r { Ok(x) => x, Err(p) => Some((p.signature(), p.describe())) }
+}
+
+fn witness(c: &Case) -> Value { json!({"value": brief_v(&c.v), "placement": PLACEMENTS[c.placement as usize], "stream_data": c.stream_data.as_ref().map(|d| show(d))}) }
+
+fn leaf_sweep(run: &Run) {
+    // every boundary leaf in every placement
+    let mut leaves: Vec<(String, V)> = Vec::new();
+    for x in BOUNDARY_REALS { leaves.push((format!("real {}", x), real_v(x))); }
+    for i in [0, 1, -1, i32::MAX, i32::MIN, 255, 65536] { leaves.push((format!("int {}", i), V::Int(i))); }
+    for b in 0..=255u8 { leaves.push((format!("str byte {:#04x}", b), V::Str(vec![b'a', b, b'z']))); }
+    for c in (1u32..=0xff).chain([0x100, 0x7ff, 0x800, 0xfffd, 0xffff, 0x10000, 0x1f600, 0x10ffff]) { if let Some(ch) = char::from_u32(c) { leaves.push((format!("name U+{:04X}", c), V::Name(format!("A{}B", ch)))); } }
+    leaves.push(("empty name".into(), V::Name("".into())));
+    leaves.push(("empty string".into(), V::Str(vec![])));
+    leaves.push(("string parens".into(), V::Str(b"(()".to_vec())));
+    leaves.push(("string backslash end".into(), V::Str(b"ab\\".to_vec())));
+    for (label, v) in &leaves {
+        for pl in 0..4u8 {
+            let c = Case { v: v.clone(), placement: pl, stream_data: None };
+            run.eval();
+            run.nontrivial(fnv(format!("{:?}{}", v, pl).as_bytes()));
+            if let Some((cls, detail)) = oracle(&c) {
+                let kind = match v {
+                    V::Real(t) => if crate::val::real_value(t).abs() >= 2147483648.0 { "real>=2^31" } else { "real" },
+                    V::Int(_) => "int", V::Str(_) => "string",
+                    V::Name(n) => if n.bytes().any(|b| b >= 0x80) { "name_non_ascii" } else if n.bytes().any(|b| b <= 0x20 || b == 0x7f || b"()<>[]{}/%#".contains(&b)) { "name_needs_escape" } else { "name" },
+                    _ => "other" };
+                run.violation(&format!("C04|leaf|{}|{}|{}", kind, PLACEMENTS[pl as usize], cls), &format!("{}: {}", label, detail), witness(&c));
+            }
+        }
+    }
+    run.add("leaf_sweep_cases", leaves.len() as u64 * 4);
+    run.exhaustive("boundary leaves (30 reals, 7 ints, all 256 string bytes, names with every code point U+0001-U+00FF + plane samples) x 4 placements", true);
+}
+
+pub fn run(run: &Run) {
+    run.rule("Primitive trees (depth <= 16 incl. deep chains, strings over all bytes, names over Unicode scalar values, boundary/random-bit finite reals, i32 boundaries, references, streams via Stream::new) serialised by the real writer and re-read: (i) as an indirect object framed by Storage::save (found in PdfBuilder output, parse_indirect_object), (ii) dictionary value, (iii) array element between integers (Primitive::serialize + parser::parse), (iv) operand of scn in serialize_ops/parse_ops; equality modulo Integer≡Number. distinct_nontrivial = distinct (value, placement)");
+    run.assume("Integer(n) and Number(x) are identified when numerically equal; dictionary order ignored; stream /Length ignored");
+    leaf_sweep(run);
+    let n = run.n(400_000, 6_000_000);
+    par_for(n, |i| {
+        let s = Src::fresh(Rng::derive(run.seed, 4, i));
+        run.eval();
+        let md = if i % 5 == 0 { 8 } else { 3 };
+        check_case(run, "C04", "tree", s, &|s| gen_case(s, md), &oracle, &witness,
+            &|c, s| { run.nontrivial(fnv(format!("{:?}", c).as_bytes())); run.count(&format!("placement:{}", PLACEMENTS[c.placement as usize])); for l in &s.labels { run.count(&format!("label:{}", l)); } if i < 6 { run.sample(witness(c)); } });
+    });
+}
